@@ -52,6 +52,23 @@ structure PassIRj where
   rules : List RuleIR
 deriving Repr, Inhabited
 
+structure GAssignIR where
+  order : Nat
+  line : Nat
+  override : Bool
+  cls : Nat
+  attr : Nat        -- user attribute index, or 1000 = breakweight
+  value : Int
+deriving Repr, Inhabited
+
+structure GAttrIR where
+  marker : Nat
+  markerBase : Int
+  numAttrs : Nat
+  spaceGlyphs : List Nat
+  assigns : List GAssignIR
+deriving Repr, Inhabited
+
 structure ProgIR where
   numGlyphs : Nat := 0
   numReal : Nat := 0
@@ -61,6 +78,7 @@ structure ProgIR where
   classes : Array (List Nat) := #[]
   classDefs : Array Cls.ClassDef := #[]
   passes : List PassIRj := []
+  gattr : Option GAttrIR := none
 deriving Inhabited
 
 open Lean in
@@ -146,7 +164,18 @@ def parseProgIR (text : String) : Except String ProgIR := do
   let passes ← (← (← j.getObjVal? "passes").getArr?).toList.mapM fun p => do
     let rules ← (← (← p.getObjVal? "rules").getArr?).toList.mapM parseRule
     pure ({ index := ← jNat (← p.getObjVal? "index"), table := ← (← p.getObjVal? "table").getStr?, rules } : PassIRj)
+  let gj := j.getObjValD "gattr"
+  let gattr ← if gj.isNull then pure none else do
+    let assigns ← (← (← gj.getObjVal? "assigns").getArr?).toList.mapM fun a => do
+      pure ({ order := ← jNat (← a.getObjVal? "order"), line := ← jNat (← a.getObjVal? "line"),
+              override := ← (← a.getObjVal? "override").getBool?, cls := ← jNat (← a.getObjVal? "cls"),
+              attr := ← jNat (← a.getObjVal? "attr"), value := ← (← a.getObjVal? "value").getInt? } : GAssignIR)
+    pure (some ({ marker := ← jNat (← gj.getObjVal? "marker"), markerBase := ← (← gj.getObjVal? "markerBase").getInt?,
+                  numAttrs := ← jNat (← gj.getObjVal? "numAttrs"),
+                  spaceGlyphs := ← (← (← gj.getObjVal? "spaceGlyphs").getArr?).toList.mapM jNat,
+                  assigns } : GAttrIR))
   return {
+    gattr,
     numGlyphs := ← jNat (← j.getObjVal? "numGlyphs"), numReal := ← jNat (← j.getObjVal? "numReal"),
     lb := ← jNat (← j.getObjVal? "lb"), phantom := ← jNat (← j.getObjVal? "phantom"),
     anyClass := ← jNat (← j.getObjVal? "anyClass"), classes, classDefs, passes }
